@@ -3,6 +3,7 @@ package fsx
 import (
 	"fmt"
 	"io/ioutil"
+	"net"
 	"net/http"
 	"net/http/httptest"
 	"os"
@@ -62,11 +63,21 @@ func (b *breakingBody) Read(p []byte) (int, error) {
 	return n, nil
 }
 
-var linkNames = []string{"/ln-dir", "/ln-file", "/ln-abs-dir", "/ln-abs-file", "/dangling", "/dangling-deep", "/dangling-abs", "/loop", "/loop2a", "/ln-null",
+var linkNames = []string{"/ln-dir", "/ln-file", "/ln-abs-dir", "/ln-abs-file", "/dangling", "/dangling-deep", "/dangling-abs", "/loop", "/loop2a", "/ln-sock",
 	"/album", "/album/latest", "/album/cover", "/dir/ln-up", "/ln-outside", "/ln-proc"}
 
 func buildLinkTree(root string) error {
 	os.RemoveAll(root)
+	if sock := filepath.Join(filepath.Dir(root), "special.sock"); !isSocket(sock) {
+		os.Remove(sock)
+		if l, err := net.Listen("unix", sock); err == nil {
+			// keep the file, drop the listener
+			if ul, ok := l.(*net.UnixListener); ok {
+				ul.SetUnlinkOnClose(false)
+			}
+			l.Close()
+		}
+	}
 	for _, d := range []string{"dir", "dir/sub", "dir/emptysub", "album", "empty", "new-old/deep", "copy.d", "empty2", "moved~"} {
 		if err := os.MkdirAll(filepath.Join(root, d), 0755); err != nil {
 			return err
@@ -81,7 +92,12 @@ func buildLinkTree(root string) error {
 	links := [][2]string{
 		{"ln-dir", "dir"}, {"ln-file", "file.txt"}, {"ln-abs-dir", filepath.Join(root, "dir")}, {"ln-abs-file", filepath.Join(root, "file.txt")},
 		{"dangling", "missing-target"}, {"dangling-deep", "no-such-dir/target.txt"}, {"dangling-abs", filepath.Join(root, "no-such-dir", "t")},
-		{"loop", "loop"}, {"loop2a", "loop2b"}, {"loop2b", "loop2a"}, {"ln-null", "/dev/null"},
+		{"loop", "loop"}, {"loop2a", "loop2b"}, {"loop2b", "loop2a"},
+		// something that is no regular file and no directory: a Unix socket of
+		// the harness's own next to the root (never a system file such as
+		// /dev/null: the server under test runs with the harness's privileges,
+		// and a broken one may remove or overwrite what a link points to)
+		{"ln-sock", filepath.Join(filepath.Dir(root), "special.sock")},
 		{"album/latest", "../dir"}, {"album/cover", "photo.jpg"}, {"dir/ln-up", ".."}, {"ln-outside", filepath.Dir(root)},
 		// another file system, one that refuses to create anything (ENOENT on
 		// create, EXDEV on rename); only names that do not exist there are used
@@ -93,6 +109,11 @@ func buildLinkTree(root string) error {
 		}
 	}
 	return nil
+}
+
+func isSocket(p string) bool {
+	fi, err := os.Lstat(p)
+	return err == nil && fi.Mode()&os.ModeSocket != 0
 }
 
 func linkRequests() []linkReq {
